@@ -41,7 +41,9 @@ def check_function(ctx, rid, fi, cg=None):
         if target is None:
             continue
         params = target.params()
-        if target.kind in ("method", "classmethod") and params:
+        via_class = isinstance(node.func, ast.Attribute) and repo.class_of_expr(fi.module, node.func.value) is not None
+        if params and (target.kind == "classmethod" or (target.kind == "method" and not via_class)
+                       or (r and r[0] == "class")):
             params = params[1:]
         kwonly = [a.arg for a in target.node.args.kwonlyargs]
         allp = set(params) | set(kwonly)
